@@ -485,6 +485,11 @@ class Flows:
         # the UA's answer: the proxy's Via on top, then the backend's Via as the proxy relayed it (stamped unless no-received)
         echoed = via if l["no_received"] else via + b";received=" + bip
         code = r.choice([200, 200, 202])
+        if r.random() < 0.35:
+            # a provisional answer first: no To tag yet (no dialog can be formed from it), relayed towards the backend all the same
+            rs0 = [(b"Via", b"SIP/2.0/UDP " + l["addr"] + b":%d;branch=" % l["udp"] + placeholder(e)), (b"Via", echoed), (b"From", frm),
+                   (b"To", to), (b"Call-ID", callid), (b"CSeq", b"%d SUBSCRIBE" % cseq)]
+            s.ev_udp(self.li, ua, msg(b"SIP/2.0 100 Trying", rs0))
         rs = [(b"Via", b"SIP/2.0/UDP " + l["addr"] + b":%d;branch=" % l["udp"] + placeholder(e)), (b"Via", echoed), (b"From", frm),
               (b"To", to if refresh is not None else to + b";tag=" + tu), (b"Call-ID", callid), (b"CSeq", b"%d SUBSCRIBE" % cseq)] + ex
         s.ev_udp(self.li, ua, msg(b"SIP/2.0 %d OK" % code, rs))
@@ -976,6 +981,19 @@ def tcp_history(rng, block, opts=None):
                 open_tx.remove(t)
             continue
         live = [c for c in conns if not c.get("dead")]
+        if n > 0 and r.random() < 0.06:
+            # the clients' address is by now learned over TCP.  A provisional response is relayed to it over UDP, to port 0 (the
+            # send fails: the fail-over entry forgets its primary), then once more under the same key: the entry has no primary,
+            # and the listener the host was learned through is a TCP one, whose socket cannot be borrowed for a datagram
+            b = r.choice(f.backends)
+            ip, port = b.split(b":")
+            hs0 = [(b"Via", b"SIP/2.0/UDP " + l["addr"] + b":%d;branch=z9hG4bK-own-p0" % l["udp"]),
+                   (b"Via", b"SIP/2.0/UDP " + src_ip + b";branch=z9hG4bK-p0-%d;received=" % budget + src_ip + b";rport=0"),
+                   (b"From", b"<sip:p0@a.example>;tag=p0"), (b"To", b"<sip:bob@svc.example.com>;tag=q0"), (b"Call-ID", b"p0-%d" % budget),
+                   (b"CSeq", b"7 OPTIONS")]
+            for _ in range(2):
+                s.ev_udp(f.li, (ip, int(port)), msg(b"SIP/2.0 180 Ringing", hs0))
+            continue
         if o.get("cleanpass") and open_tx and not waited and r.random() < 0.5:
             # more than a minute passes while transactions are open: the next look-up runs the table's clean-up pass
             # (entries of inbound connections live for an hour: the pending transactions must survive it)
